@@ -393,6 +393,9 @@ fn child(args: &Args, rep: &mut Report) {
     if args.tier == Tier::Thorough && rep.violations.is_empty() {
         // ASan build, every entry point, C15's error oracle inside the target
         let seeds: Vec<Vec<u8>> = corpus.iter().filter(|b| b.len() <= 4096).cloned().collect();
+        // (the campaign runs in other processes: tell the parent's watchdog not to expect progress marks)
+        let _ = std::fs::create_dir_all(cur_dir());
+        let _ = std::fs::write(format!("{}/phase-unwatched", cur_dir()), b"");
         fuzz_campaign(rep, "fuzz_c04", &seeds, 500_000, 8192, workers());
     }
     for c in ["nesting-combo", "nesting-sum", "non-utf8", "extreme", "truncation", "mutant.corpus", "mutant.generated", "valid"] {
@@ -423,12 +426,59 @@ pub fn run(args: Args) -> ! {
     // parent: run the body in a child process
     let _ = std::fs::remove_dir_all(cur_dir());
     let exe = std::env::current_exe().unwrap_or_else(|e| fault(&format!("current_exe: {e}")));
-    let status = std::process::Command::new(&exe)
+    let mut childp = std::process::Command::new(&exe)
         .args(["C04", "--tier", args.tier.name()])
         .env("VCHECK_CHILD", "1")
         .env("VERIF_SEED", args.seed.to_string())
-        .status()
+        .spawn()
         .unwrap_or_else(|e| fault(&format!("spawn: {e}")));
+    // watchdog: every worker records its current input before touching it; when nothing has been
+    // recorded for a long time the worker is stuck on those inputs (a hang is reported as
+    // inconclusive with the inputs named, never as a violation)
+    const STALL_SECS: u64 = 150;
+    let mut last_progress = std::time::Instant::now();
+    let mut last_stamp = std::time::SystemTime::UNIX_EPOCH;
+    let status = loop {
+        match childp.try_wait() {
+            Ok(Some(st)) => break st,
+            Ok(None) => {}
+            Err(e) => fault(&format!("wait: {e}")),
+        }
+        std::thread::sleep(std::time::Duration::from_millis(500));
+        let mut newest = std::time::SystemTime::UNIX_EPOCH;
+        let mut no_watch = false;
+        if let Ok(rd) = std::fs::read_dir(cur_dir()) {
+            for e in rd.filter_map(|e| e.ok()) {
+                if e.file_name().to_string_lossy() == "phase-unwatched" {
+                    no_watch = true;
+                }
+                if let Ok(m) = e.metadata().and_then(|m| m.modified()) {
+                    if m > newest {
+                        newest = m;
+                    }
+                }
+            }
+        }
+        if newest > last_stamp || no_watch {
+            last_stamp = newest;
+            last_progress = std::time::Instant::now();
+        }
+        if last_progress.elapsed().as_secs() > STALL_SECS {
+            let _ = childp.kill();
+            let _ = childp.wait();
+            let mut inputs = vec![];
+            if let Ok(rd) = std::fs::read_dir(cur_dir()) {
+                for e in rd.filter_map(|e| e.ok()) {
+                    if let Ok(b) = std::fs::read(e.path()) {
+                        inputs.push(String::from_utf8_lossy(&b).chars().take(160).collect::<String>());
+                    }
+                }
+            }
+            inputs.sort();
+            inputs.dedup();
+            fault(&format!("no input finished for {STALL_SECS} s: the worker is stuck (a hang is reported as inconclusive). Inputs in flight: {inputs:?}"));
+        }
+    };
     if let Some(code) = status.code() {
         let _ = std::fs::remove_dir_all(cur_dir());
         std::process::exit(code);
